@@ -7,12 +7,14 @@ import Resonate.Driver.Codec
 import Resonate.Generated.Sql
 import Resonate.Proofs.Wf
 import Resonate.Model.Json
+import Resonate.Model.Poll
 open Lean
 namespace Resonate
 
 structure DriverState where
   db : Db := {}
   sys : Option Sys := none
+  poll : Poll.St := { max := 0 }
 
 def defsOf (d : String) : SqlDefs := if d == "pg" then Gen.Pg.defs else Gen.Sqlite.defs
 
@@ -93,6 +95,52 @@ def handleLine (st : DriverState) (line : String) : DriverState × Json :=
           | .ok rss => Json.mkObj [("err", Json.null), ("results", toJson (rss.map fun rs => rs.map resToJson)), ("db", toJson db')]
           | .error e => Json.mkObj [("err", storeErrToString e), ("results", Json.arr #[]), ("db", toJson db')]
         ({ db := db' }, out)
+    | .ok "poll_init" =>
+      ({ st with poll := { max := (j.getObjValAs? Nat "max").toOption.getD 0 } }, Json.mkObj [("ok", true)])
+    | .ok "poll_connect" | .ok "poll_disconnect" | .ok "poll_shutdown" =>
+      let op := (j.getObjValAs? String "op").toOption.getD ""
+      let g := (j.getObjValAs? String "group").toOption.getD ""
+      let i := (j.getObjValAs? String "id").toOption.getD ""
+      let s := st.poll
+      let pop : Poll.Op := match op with
+        | "poll_connect" => .connect g i ((j.getObjValAs? Nat "cap").toOption.getD 0)
+        | "poll_disconnect" => .disconnect ((j.getObjValAs? Nat "handle").toOption.getD 0) g i
+        | _ => .shutdown
+      let s' := Poll.step s pop
+      let newlyClosed := s'.closed.filter fun h => !s.closed.contains h
+      ({ st with poll := s' }, Json.mkObj [("handle", toJson s.next), ("registered", toJson (s'.conns.any fun c => c.handle == s.next)),
+        ("closed", toJson newlyClosed.reverse), ("len", toJson s'.conns.length)])
+    | .ok "poll_send" =>
+      let notify := (j.getObjValAs? Bool "notify").toOption.getD false
+      let data := (j.getObjValAs? String "data").toOption.getD ""
+      let body := (j.getObjValAs? String "body").toOption.getD ""
+      let observed := (j.getObjValAs? Nat "observed").toOption
+      let s := st.poll
+      if s.down then (st, Json.mkObj [("ok", false), ("possible", toJson ["send queue closed"])]) else
+      let n := match Poll.decodeData data with
+        | .ok g _ => max 1 (s.conns.filter (·.group == g)).length
+        | _ => 1
+      let outcomes := (List.range n).map fun p => (p, Poll.processRaw s notify data body p)
+      let name : Option Poll.Outcome → String
+        | none => "badData"
+        | some (.delivered h) => s!"delivered:{h}"
+        | some .noConnection => "noConnection"
+        | some .notifyWrongId => "notifyWrongId"
+        | some .full => "full"
+      let want (r : Poll.St × Option Poll.Outcome) : Bool :=
+        match observed, r.2 with
+        | some h, some (.delivered h') => h == h'
+        | none, some (.delivered _) => false
+        | none, _ => true
+        | some _, _ => false
+      match outcomes.find? fun pr => want pr.2 with
+      | some (_, r) => ({ st with poll := r.1 }, Json.mkObj [("ok", true), ("outcome", name r.2)])
+      | none => (st, Json.mkObj [("ok", false), ("possible", toJson (outcomes.map fun pr => name pr.2.2))])
+    | .ok "poll_state" =>
+      let s := st.poll
+      (st, Json.mkObj [("len", toJson s.conns.length), ("down", toJson s.down),
+        ("conns", Json.arr (s.conns.map fun c => Json.mkObj [("handle", toJson c.handle), ("group", c.group), ("id", c.id), ("buf", toJson c.buf)]).toArray),
+        ("closed", toJson (s.closed.mergeSort (· ≤ ·)))])
     | .ok op => (st, Json.mkObj [("fatal", s!"unknown op {op}")])
 
 partial def loop (h : IO.FS.Stream) (out : IO.FS.Stream) (st : DriverState) : IO Unit := do
